@@ -101,9 +101,23 @@ class Ctx:
             solver.add(*self.pc)
 
     # -- solver plumbing ---------------------------------------------------------------
-    def check(self, *extra) -> str:
+    def check(self, *extra, expect_unsat: bool = False) -> str:
+        """expect_unsat: an obligation (the usual answer is unsat).  If products/quotients of
+        symbolic reals occur, the query is first tried with every maximal non-linear sub-term
+        abstracted to a fresh variable (pure linear arithmetic: complete and fast); unsat of the
+        abstraction implies unsat of the query.  Feasibility queries go to z3 directly and fall
+        back to the abstraction only when z3 answers unknown."""
         t0 = time.time()
-        r = self.solver.check(*extra)
+        r = None
+        if expect_unsat:
+            if abstract_unsat(list(self.solver.assertions()) + [_b(e) for e in extra], self.timeout_ms):
+                r = z3.unsat
+                self.stats.abstract_unsat = getattr(self.stats, "abstract_unsat", 0) + 1
+        if r is None:
+            r = self.solver.check(*extra)
+            if r == z3.unknown and not expect_unsat:
+                if abstract_unsat(list(self.solver.assertions()) + [_b(e) for e in extra], self.timeout_ms):
+                    r = z3.unsat
         dt = time.time() - t0
         st = self.stats
         st.solver_s += dt
@@ -194,7 +208,7 @@ class Ctx:
     def valid(self, post) -> Optional[z3.ModelRef]:
         """None if pc => post is valid; otherwise a model of pc and not post."""
         post = _b(post)
-        r = self.check(z3.Not(post))
+        r = self.check(z3.Not(post), expect_unsat=True)
         if r == "unknown":
             raise Inconclusive("obligation")
         if r == "unsat":
@@ -206,6 +220,66 @@ class Ctx:
         if r == "unknown":
             raise Inconclusive("feasible")
         return r == "sat"
+
+
+NONLINEAR = [False]  # set as soon as a product/quotient of two non-constant reals is built
+
+
+def _is_num(e) -> bool:
+    return z3.is_rational_value(e) or z3.is_int_value(e) or z3.is_algebraic_value(e)
+
+
+def _collect_nonlinear(e, out: dict, seen: set):
+    i = e.get_id()
+    if i in seen:
+        return
+    seen.add(i)
+    if z3.is_app(e):
+        k = e.decl().kind()
+        if k == z3.Z3_OP_MUL:
+            if sum(0 if _is_num(a) else 1 for a in e.children()) >= 2:
+                out[i] = e
+                return
+        elif k in (z3.Z3_OP_DIV, z3.Z3_OP_IDIV):
+            if not _is_num(e.arg(1)):
+                out[i] = e
+                return
+        elif k == z3.Z3_OP_POWER:
+            out[i] = e
+            return
+        for c in e.children():
+            _collect_nonlinear(c, out, seen)
+
+
+def abstract_unsat(assertions, timeout_ms=5000) -> bool:
+    """True iff the conjunction is unsat after replacing every maximal non-linear sub-term by a
+    fresh real variable (equal terms get the same variable: z3 terms are hash-consed)."""
+    terms: dict = {}
+    seen: set = set()
+    for a in assertions:
+        _collect_nonlinear(a, terms, seen)
+    if not terms:
+        return False
+    subs = [(t, z3.Real(f"nl!{i}")) for i, t in terms.items()]
+    s = z3.Solver()
+    s.set("timeout", min(timeout_ms, 5000))
+    for a in assertions:
+        s.add(z3.substitute(a, *subs))
+    return s.check() == z3.unsat
+
+
+def prove_equal(ctx: "Ctx", a, b) -> Optional[z3.ModelRef]:
+    """None if pc => a == b; a model of pc and a != b otherwise (Inconclusive on unknown)."""
+    if a.eq(b):
+        return None
+    if z3.is_true(z3.simplify(a == b)):
+        return None
+    r = ctx.check(a != b, expect_unsat=True)
+    if r == "unsat":
+        return None
+    if r == "unknown":
+        raise Inconclusive("equality obligation")
+    return ctx.solver.model()
 
 
 class PathResult:
@@ -367,6 +441,8 @@ class SymReal:
         return self._bin(o, lambda a, b: b - a)
 
     def __mul__(self, o):
+        if isinstance(o, SymReal):
+            NONLINEAR[0] = True
         return self._bin(o, lambda a, b: a * b)
 
     def __rmul__(self, o):
@@ -379,6 +455,8 @@ class SymReal:
             return NotImplemented
         if Ctx.cur.decide(d == 0):
             raise ZeroDivisionError("float division by zero")
+        if isinstance(o, SymReal):
+            NONLINEAR[0] = True
         return SymReal(self.e / d)
 
     def __rtruediv__(self, o):
@@ -388,6 +466,7 @@ class SymReal:
             return NotImplemented
         if Ctx.cur.decide(self.e == 0):
             raise ZeroDivisionError("float division by zero")
+        NONLINEAR[0] = True
         return SymReal(n / self.e)
 
     def __neg__(self):
@@ -529,6 +608,8 @@ def sym_int(x, *a):
     if isinstance(x, SymReal):
         # truncation toward zero as a fresh Int
         ctx = Ctx.cur
+        if ctx.decide(z3.IsInt(x.e)):
+            return SymReal(x.e)  # int() of an integral value is the value itself
         k = z3.Int(f"ti!{_content_id(x.e)}")
         c = z3.If(x.e >= 0, z3.And(z3.ToReal(k) <= x.e, x.e < z3.ToReal(k) + 1),
                   z3.And(z3.ToReal(k) >= x.e, x.e > z3.ToReal(k) - 1))
